@@ -153,6 +153,8 @@ def hole_chars(h: Hole):
 
 
 def hole_may_contain(h: Hole, pat: str) -> bool:
+    if isinstance(h.extra, dict) and pat in h.extra.get("lacks", ()):
+        return False      # requires (well-formedness of the field): the substring does not occur
     hc = hole_chars(h)
     if hc is None:
         return True
@@ -167,6 +169,8 @@ def hole_may_contain(h: Hole, pat: str) -> bool:
 
 
 def straddle_possible(h: Hole, pat: str, left: str, right: str, prev_hole: bool) -> bool:
+    if isinstance(h.extra, dict) and pat in h.extra.get("lacks", ()) and not left and not right and not prev_hole:
+        return False
     hc = hole_chars(h)
     if hc is None:
         return True
